@@ -43,7 +43,10 @@
 (*    maximum: MaxSet is a set, any member is accepted;                    *)
 (*  - the mean duration is an integer number of milliseconds in the code:  *)
 (*    the exact rational mean is given, the binding accepts +- count ms.   *)
-(* Assumed: values > 0 (positive peaks), times NON-DECREASING: equal       *)
+(* Assumed: positive PEAKS - the first value, hence every running maximum, *)
+(* is > 0; later values may be zero or negative (a cumulative PnL curve can *)
+(* fall from a positive peak to below zero), so a depth (peak - v)/peak may *)
+(* exceed 1.  Times are NON-DECREASING: equal                               *)
 (* consecutive times are legitimate (AssetState accepts a snapshot with    *)
 (* the timestamp of the previous one), so a drawdown may have zero         *)
 (* duration and two drawdowns may carry the same times: reference          *)
@@ -55,7 +58,8 @@
 EXTENDS Integers, Sequences, FiniteSets, Rational
 
 CONSTANTS
-  Values,     \* curve values (integers > 0)
+  Values,     \* curve values: non-negative integers (a .cfg file cannot write negative numbers) ...
+  NegMag,     \* ... and the magnitudes of the negative values: AllValues = Values \cup {-x : x \in NegMag}
   Gaps,       \* time increments (integers >= 0)
   MaxLen      \* bound on the number of points
 
@@ -76,6 +80,7 @@ NoDD == [has |-> FALSE, d |-> DD(Zero, 0, 0, 0, 0)]
 SomeDD(d) == [has |-> TRUE, d |-> d]
 
 Idx(c) == 1..Len(c)
+AllValues == Values \cup {-x : x \in NegMag}
 
 (* ---- reference decomposition of a curve c ------------------------------ *)
 IsRecord(c, k) == \A j \in 1..(k - 1) : c[j].v < c[k].v
@@ -167,7 +172,10 @@ ReadCurrent ==
   /\ last' = [a |-> "Read", t |-> 0, v |-> 0]
   /\ UNCHANGED <<curve, gen, emitted>>
 
-AddPointAny    == \E g \in Gaps, v \in Values : Len(curve) < MaxLen /\ AddPoint(Now + g, v)
+AddPointAny    == \E g \in Gaps, v \in AllValues :
+                     /\ Len(curve) < MaxLen
+                     /\ Len(curve) = 0 => v > 0                 \* positive peaks
+                     /\ AddPoint(Now + g, v)
 ReadCurrentAny == last.a = "AddPoint" /\ ReadCurrent
 
 Next == AddPointAny \/ ReadCurrentAny
@@ -175,7 +183,8 @@ Spec == Init /\ [][Next]_vars
 
 -----------------------------------------------------------------------------
 (* C18 formulas                                                             *)
-TypeOK == /\ \A k \in Idx(curve) : curve[k].v \in Values
+TypeOK == /\ \A k \in Idx(curve) : curve[k].v \in AllValues
+          /\ Len(curve) > 0 => curve[1].v > 0 /\ Peak(curve).v > 0
           /\ \A k \in 1..(Len(curve) - 1) : curve[k].t <= curve[k + 1].t
 
 \* the running generator IS the reference decomposition
@@ -196,7 +205,9 @@ All == ReportedFin(curve)
 \* every reported drawdown is a real peak-to-trough decline
 PeakToTrough == \A d \in All :
   /\ d.start <= d.end /\ d.k < d.q
-  /\ IsPos(d.value) /\ Lt(d.value, One)
+  /\ IsPos(d.value)
+  \* a decline that does not reach zero is < 1, one that goes through zero is >= 1 (and not capped)
+  /\ (Lt(d.value, One) <=> \A j \in (IF d \in CompletedSet(curve) THEN d.k..(d.q - 1) ELSE d.k..d.q) : curve[j].v > 0)
   /\ d.k \in Records(curve) /\ curve[d.k].t = d.start /\ curve[d.q].t = d.end
   \* the value is (peak - trough)/peak for the lowest point of the period
   /\ LET seg == IF d \in CompletedSet(curve) THEN d.k..(d.q - 1) ELSE d.k..d.q
@@ -223,7 +234,9 @@ MaxIsLargest == All # {} =>
         /\ \E d \in All : Leq(R(DDur(d)), mn.dur)
         /\ \E d \in All : Geq(R(DDur(d)), mn.dur)
 \* classic maximum drawdown: the deepest relative decline from ANY earlier point of the curve
-ClassicMDD == All # {} =>
+\* (on curves that stay positive: from a non-positive value a relative decline is not defined, and a
+\*  trough below zero is relatively deeper from a LOWER earlier value)
+ClassicMDD == (All # {} /\ \A k \in Idx(curve) : curve[k].v > 0) =>
   LET pairs == {x \in Idx(curve) \X Idx(curve) : x[1] <= x[2]}
       best  == RMaxOver([x \in pairs |-> Frac(curve[x[1]].v - curve[x[2]].v, curve[x[1]].v)], pairs)
   IN \A m \in MaxSet(All) : m.value = best
